@@ -21,4 +21,6 @@ def run(ck):
     gradient.r16_packed_channels_are_clamped(ck, P)
     gradient.r17_walker_position_kept_wide(ck, P)
     gradient.r18_reflection_mirrors_the_old_bounds(ck, P)
+    gradient.r19_stop_search_starts_at_the_first_stop(ck, P)
+    gradient.r20_horizontal_verdict_depends_on_the_y_column(ck, P)
     sampling.r16_skip_only_on_zero_mask_word(ck, P, 'C13-R14')
